@@ -397,6 +397,90 @@ def overlapping_disconnects(ctx: Ctx) -> None:
                                           trace=sim.trace(30))
 
 
+def calls_from_inside_an_exception_handler(ctx: Ctx) -> None:
+    """The application awaits the client from INSIDE an `except` body - the usual shape of a fallback ("primary address refused: try the other one in the
+    handler") or of clean-up after its own deadline: while the call runs, and when it ends, the task is handling an exception (sys.exc_info() is not
+    empty in any frame of the await chain).  That state is the caller's business: against a healthy device every connect phase and request still
+    ends with its result, against a dead one with an error of the library's hierarchy - never with a raw AttributeError / TypeError."""
+    import asyncio
+    import base64
+
+    from aioesphomeapi.core import APIConnectionError
+    from vf.sim.device import DeviceConfig
+    from vf.sim.scenario import Sim  # noqa: PLC0415
+
+    res = ctx.res
+    psk = bytes(range(3, 35))
+    classes = {"OSError": OSError, "KeyError": KeyError, "TimeoutError": TimeoutError, "CancelledError": asyncio.CancelledError,
+               "APIConnectionError": APIConnectionError}
+    idx = 0
+    for framing in ("plain", "noise"):
+        for amb in classes:
+            for form in ("connect", "two-phases", "two-phases/finish-outside", "connect(login)"):
+                for world in ("healthy", "refused", "hangs-up-after-hello"):
+                    idx += 1
+                    if not ctx.mine(idx):
+                        continue
+                    with Sim() as sim:
+                        cfg = DeviceConfig(noise_psk=psk if framing == "noise" else None)
+                        cfg.hello_name = cfg.name    # (this scenario is about the caller's state, not about the firmware flavour)
+                        if world == "hangs-up-after-hello":
+                            cfg.handlers["ConnectRequest"] = lambda c, m: c.eof(0.0)
+                            cfg.handlers["DeviceInfoRequest"] = lambda c, m: c.eof(0.0)
+                        dev = sim.device(cfg)
+                        if world == "refused":
+                            sim.net.connect_policy = lambda sock, addr: ("refuse", 0.001)
+                        cli = sim.client(**({"noise_psk": base64.b64encode(psk).decode()} if framing == "noise" else {}))
+                        log: list[tuple[str, str, Any]] = []
+
+                        async def step(name: str, factory: Any, log: list[Any] = log) -> bool:
+                            try:
+                                r = await factory()
+                            except BaseException as e:  # noqa: BLE001
+                                log.append((name, "raised", e))
+                                return False
+                            log.append((name, "ok", r))
+                            return True
+
+                        async def app(cli: Any = cli, amb: str = amb, form: str = form, step: Any = step) -> None:
+                            try:
+                                raise classes[amb]("first attempt failed")
+                            except classes[amb]:
+                                if form.startswith("connect"):
+                                    ok = await step("connect", lambda: cli.connect(login=form.endswith("(login)")))
+                                else:
+                                    ok = await step("start_connection", lambda: cli.start_connection())
+                                    if ok and form == "two-phases":
+                                        ok = await step("finish_connection", lambda: cli.finish_connection(login=False))
+                                if ok and not form.endswith("finish-outside"):
+                                    await step("device_info", lambda: cli.device_info())
+                            if form.endswith("finish-outside") and log and log[-1][1] == "ok":
+                                if await step("finish_connection", lambda: cli.finish_connection(login=False)):
+                                    await step("device_info", lambda: cli.device_info())
+                            await step("disconnect", lambda: cli.disconnect(force=True))
+
+                        a = sim.call("app", app)
+                        sim.run(until=lambda: a.done, max_time=sim.clock + 200)
+                        res.evaluations += 1
+                        res.count("workload/calls-from-inside-an-exception-handler")
+                        res.count(f"caller-handling/{amb}/{world}")
+                        res.sig("inside-handler", framing, amb, form, world)
+                        case = {"spec": None, "inside_exception_handler": {"framing": framing, "handling": amb, "form": form, "world": world}}
+                        if not a.done:
+                            res.violation("C09/unbounded/calls-inside-handler", f"the application task is still pending 200 s later; steps so far {[(n, o) for n, o, _ in log]}", case,
+                                          trace=sim.trace(30))
+                            continue
+                        for name, outcome, val in log:
+                            if outcome == "raised" and not isinstance(val, APIConnectionError):
+                                res.violation(f"C09/raw-exception/{name}/{type(val).__name__}", f"{framing}, {world} device: {name}() awaited inside an `except {amb}` body "
+                                              f"raised {val!r}", case, trace=sim.trace(30))
+                            elif outcome == "raised" and world == "healthy":
+                                res.violation(f"C09/failed-against-healthy-device/{name}", f"{framing}: {name}() awaited inside an `except {amb}` body against a healthy device "
+                                              f"raised {val!r}", case, trace=sim.trace(30))
+                        if world == "healthy" and [n for n, o, _ in log if o == "ok"][-2:-1] != ["device_info"]:
+                            res.violation("C09/failed-against-healthy-device/steps", f"{framing}: steps {[(n, o) for n, o, _ in log]}", case, trace=sim.trace(30))
+
+
 def shard(ctx: Ctx) -> None:
     from vf.sim import device as _device_fw  # noqa: PLC0415
 
@@ -418,6 +502,8 @@ def shard(ctx: Ctx) -> None:
     sweep.hello_content_sweep(ctx, PROP)
     sweep.reconnect_in_on_stop_sweep(ctx, PROP)
     sweep.abandoned_disconnect_sweep(ctx, PROP)
+    sweep.crossing_requests_sweep(ctx, PROP)
+    calls_from_inside_an_exception_handler(ctx)
     sweep.connect_fault_sweep(ctx, PROP)
     sweep.duplicate_answers_sweep(ctx, PROP)
     sweep.pair_sweep(ctx, PROP, 5000 if ctx.thorough else 250)
